@@ -177,7 +177,7 @@ FROZEN, PARTS, BUF = 'Table.frozen_buffer', 'Table.partitions', 'Table.buffer'
 
 def lck3_snapshot_atomic(ctx):
     ctx.rule('LCK-3', 'Table::snapshot reads buffer, frozen buffer and partition map only while '
-                      'all three locks are held', floor=6)
+                      'all three locks are held', floor=4)
     P = ctx.P
     lm = lockmodel(ctx)
     F = P.one('Table::snapshot')
@@ -491,7 +491,7 @@ def cnd1_condvars(ctx):
 # ------------------------------------------------------------------------------------ JOB-1
 def job1_pool_jobs(ctx):
     ctx.rule('JOB-1', 'every awaited pool job sends exactly one message on every normal path and '
-                      'the spawner counts the replies', floor=6)
+                      'the spawner counts the replies', floor=3)
     P = ctx.P
     n = 0
     for body, blk, t in P.call_sites(lambda f: strip_generic_args(f) == 'threadpool::ThreadPool::execute'):
